@@ -20,6 +20,10 @@ func runC14(c *Check, tier string) {
 	ruleR14d(c, "R14d")
 	ruleWritePathErrors(c, "R14e")
 	ruleR14f(c, "R14f")
+	// a timeout is a failure: the walker records every error but plain cancellation
+	if w := findWalker(c, "R14g"); w != nil {
+		shareRule(c, "R14g", "after the callback returned the node routine reports a completion on every path unless the error is context.Canceled (same obligation as R04c)", 1, "R04c", func(sub *Check) { ruleR04c(sub, w) }, func(k string) bool { return strings.Contains(k, "completion-on-every-exit") })
+	}
 }
 
 // R14f: a target that declares outputs is reported successful only after a call that looked at every
